@@ -30,6 +30,7 @@ EDGES = "OrqModel.Properties.Edges"
 REMEDIATION = "OrqModel.Properties.Remediation"
 MERGEORDER = "OrqModel.Properties.MergeOrder"
 RENDERFAIL = "OrqModel.Properties.RenderFail"
+SHORTHAND = "OrqModel.Properties.Shorthand"
 
 TRUSTED = [
     "Lean 4.33 kernel (thorough tier: re-checked by leanchecker)",
@@ -207,7 +208,7 @@ PROPS = {
     ),
     "C20": dict(
         title="every shorthand means its long form",
-        theorems={PARAMS: ["C20_do_split"]},
+        theorems={PARAMS: ["C20_do_split"], SHORTHAND: ["C20_missing_when_always_taken", "C20_retry_command_is_policy"]},
         keys=None, offers="full", prof=dict(p_odd_strings=0.9, p_publish=0.7), hist=dict(), monitor="C20",
         unproven=["inline parameter scanner round trip not proved; search only"],
     ),
